@@ -197,8 +197,19 @@ impl Clone for TrackedB {
 pub trait Tr { fn read_dyn(&self) -> (u32, u32); }
 impl Tr for Tracked { fn read_dyn(&self) -> (u32, u32) { self.read() } }
 
-/// Silence the default panic message (panics are expected observations).
-pub fn quiet_panics() { std::panic::set_hook(Box::new(|_| {})); }
+/// Silence the default panic message (panics are expected observations).  The hook also switches
+/// recording off: what the panic runtime allocates afterwards (the boxed payload / exception) is
+/// not the library's doing.  Deallocations of recorded blocks are logged regardless.
+pub fn quiet_panics() { std::panic::set_hook(Box::new(|_| { let _ = REC.try_with(|r| r.set(false)); })); }
+
+/// Run a call into the library under test with recording ON (everything else the harness does is
+/// unrecorded).
+pub fn lib<R>(f: impl FnOnce() -> R) -> R { let o = set_recording(true); let r = f(); set_recording(o); r }
+
+/// Guard for harness code that runs *inside* a library call (callbacks): recording off until dropped.
+pub struct Unrec(bool);
+impl Unrec { pub fn new() -> Self { Unrec(set_recording(false)) } }
+impl Drop for Unrec { fn drop(&mut self) { if !std::thread::panicking() { set_recording(self.0); } } }
 
 /// Classify a panic payload into a small enum for canonical output.
 pub fn panic_class(p: &(dyn std::any::Any + Send)) -> &'static str {
